@@ -1,7 +1,8 @@
 """C17 -- a stricter confidence setting never makes a detector alarm earlier."""
 from .common import A_COMMON
 TARGETS = [("rel", n) for n in ("DDM_drift_scale", "EDDM_drift_thresh", "STEPD_alpha_drift", "PageHinkley_threshold",
-                                "CUSUM_threshold", "ADWIN_delta", "HDM_significance", "DDM_warning_scale", "EDDM_warning_thresh", "STEPD_alpha_warning")]
+                                "CUSUM_threshold", "ADWIN_delta", "HDM_significance", "DDM_warning_scale", "EDDM_warning_thresh", "STEPD_alpha_warning",
+                                "NNDVI_alpha", "KdqTreeStreaming_alpha", "KdqTreeBatch_alpha", "LFR_detect_level", "LFR_warning_level")]
 LEVEL = "proof"
 ASSUMPTIONS = A_COMMON + [
     "two-run obligation per update: identical statistics and input, only the threshold differs; as long as neither run "
@@ -9,8 +10,19 @@ ASSUMPTIONS = A_COMMON + [
     "over the history (first alarm of the stricter run is never earlier) follows from this simulation step",
     "PageHinkley: thresholds are positive (theta = threshold * mean)",
     "norm.cdf monotone (axiom)",
-    "HDDDM / CDBD: relational obligation on _adaptive_threshold (t.ppf monotone in the level: axiom); kdq-tree alpha, "
-    "NN-DVI alpha, LFR levels: bounded tier only (their thresholds are quantiles of simulated / bootstrapped samples)",
+    "HDDDM / CDBD: relational obligation on _adaptive_threshold (t.ppf monotone in the level: axiom)",
+    "kdq-tree alpha, NN-DVI alpha, LFR levels (thresholds that are quantiles of simulated / bootstrapped samples): two-run "
+    "obligation on the function that computes the critical value (_get_critical_kld, _compute_drift_threshold, _sim_bounds): "
+    "same inputs, only the level differs => the critical value moves the right way (and, LFR, the bounds of the other level "
+    "do not move). The sampling part of each function (bootstrap loop, permutation loop, Monte-Carlo block) is ABSTRACTED - "
+    "its body is not verified - and shown by a syntactic dependency analysis (pyvc/taint.py) not to read the level, so both "
+    "runs draw the same sample under one random seed schedule; the tail (norm.fit + norm.ppf, entropies + np.quantile, four "
+    "np.percentile calls) is executed symbolically. Axioms: np.quantile / np.percentile of a fixed sample is monotone in "
+    "the level, norm.ppf(q, mu, std) == mu + std * ppf01(q) with ppf01 monotone and std >= 0, a comprehension whose element "
+    "mentions only its own variables and non-random library functions is a deterministic function of its list. That the "
+    "detector's decision is 'statistic beyond the critical value' is the C06 / C09 / C10 contract of update(); composing "
+    "the two (stricter level => decision implies the looser decision) is a meta-step, not mechanised; the bounded tier "
+    "checks the composed statement on real runs",
     "ADWIN: the relational obligation is on _check_epsilon (the only place delta is read): equal window statistics, "
     "delta1 <= delta2 => (cut under delta1 => cut under delta2); window of at least 2 inputs, variance >= 0",
 ]
